@@ -440,16 +440,16 @@ func runC14(c *Ctx) {
 				instrs(g, func(in ssa.Instruction) {
 					switch x := in.(type) {
 					case *ssa.Store:
-						if fl := fieldOf(x.Addr); fl != nil && strings.HasPrefix(fl.Name(), "values") {
+						if fl := fieldOf(x.Addr); fl != nil && strings.HasPrefix(vname(fl), "values") {
 							bad = "store to Metadata." + fl.Name() + " at " + P.Pos(in.Pos())
 						}
 					case *ssa.MapUpdate:
-						if _, fl := loadedFieldStatic(x.Map); fl != nil && strings.HasPrefix(fl.Name(), "values") {
+						if _, fl := loadedFieldStatic(x.Map); fl != nil && strings.HasPrefix(vname(fl), "values") {
 							bad = "map write to Metadata." + fl.Name() + " at " + P.Pos(in.Pos())
 						}
 					case *ssa.Call:
 						if b, ok := x.Call.Value.(*ssa.Builtin); ok && b.Name() == "delete" {
-							if _, fl := loadedFieldStatic(x.Call.Args[0]); fl != nil && strings.HasPrefix(fl.Name(), "values") {
+							if _, fl := loadedFieldStatic(x.Call.Args[0]); fl != nil && strings.HasPrefix(vname(fl), "values") {
 								bad = "delete from Metadata." + fl.Name() + " at " + P.Pos(in.Pos())
 							}
 						}
